@@ -226,6 +226,57 @@ pub fn run(tier: Tier) -> i32 {
             rep.eval(1);
         });
 
+        // ---- (2b) the same values in every POSITION a string can stand in ---------------------------------------------
+        // (plural forms incl. `_other`, ordinal forms, range branch / fallback, nested subkey, another locale, an
+        // argument of a foreign key): each position is resolved by its own code
+        {
+            const POSITIONS: [&str; 9] = ["plural-one", "plural-other", "ordinal-other", "plural-few-of-three", "range-branch", "range-fallback", "subkey", "other-locale", "fk-argument"];
+            let raws: Vec<String> = inputs
+                .iter()
+                .filter(|(part, v)| (part == "fk-forms" || (part == "tokens" && v.chars().count() <= tier.pick(10, 14))) && v.starts_with('"'))
+                .filter_map(|(_, v)| serde_json::from_str::<String>(v).ok())
+                .collect();
+            rep.count("positioned_values", raws.len() as u64);
+            par_for_chunked(raws.len() * POSITIONS.len(), 16, |w, i| {
+                let raw = &raws[i / POSITIONS.len()];
+                let pos = POSITIONS[i % POSITIONS.len()];
+                let q = json_string(raw, false);
+                let mut p = file_project("\"plain\"");
+                let mut extra: Vec<(String, Val)> = vec![];
+                let rj = |t: String| Val::RawJson(t);
+                match pos {
+                    "plural-one" => extra.extend([("q_one".to_string(), rj(q.clone())), ("q_other".to_string(), st("o{{count}}"))]),
+                    "plural-other" => extra.extend([("q_one".to_string(), st("one")), ("q_other".to_string(), rj(q.clone()))]),
+                    "ordinal-other" => extra.extend([("q_ordinal_one".to_string(), st("{{count}}st")), ("q_ordinal_other".to_string(), rj(q.clone()))]),
+                    "plural-few-of-three" => extra.extend([("q_one".to_string(), st("one")), ("q_few".to_string(), rj(q.clone())), ("q_other".to_string(), st("o"))]),
+                    "range-branch" => extra.push(("q".to_string(), rj(format!("[\"u8\", [{q}, 0], [\"fb\"]]")))),
+                    "range-fallback" => extra.push(("q".to_string(), rj(format!("[\"u8\", [\"z\", 0], [{q}]]")))),
+                    "subkey" => extra.push(("q".to_string(), rj(format!("{{\"s\": {{\"t\": {q}}}}}")))),
+                    "other-locale" => {
+                        let mut cfg = Config::simple("en", &["en", "fr"]);
+                        cfg.inherits = vec![];
+                        let en = p.files.get(&(None, "en".to_string())).unwrap().clone();
+                        let mut fr: Vec<(String, Val)> = en.iter().map(|(k, _)| (k.clone(), Val::Null)).collect();
+                        fr[0].1 = rj(q.clone());
+                        p = Project::new(cfg);
+                        p.set_file(None, "en", en);
+                        p.set_file(None, "fr", fr);
+                    }
+                    _ => {
+                        let outer = format!("$t(a, {{\"x\": {q}}})");
+                        extra.push(("q".to_string(), rj(json_string(&outer, false))));
+                    }
+                }
+                p.files.get_mut(&(None, "en".to_string())).unwrap().extend(extra);
+                *current[w].lock().unwrap() = format!("{pos}: {q}");
+                watch.begin(w);
+                let o = run_project(&p, &scratch.worker(w), default_opts());
+                watch.end(w);
+                judge(&rep, &format!("position/{pos}"), &q, &o, &classes);
+                rep.eval(1);
+            });
+        }
+
         // ---- (5b) inheritance loops x a reference to a null / absent target ------------------------------------
         {
             let locs = ["en", "fr", "de", "it"];
@@ -363,7 +414,7 @@ pub fn run(tier: Tier) -> i32 {
     rep.sample(json!({"file_value": "[\"f32\", [\"x{{count}}\", \"NaN..=inf\"], [\"y\"]]"}));
     rep.sample(json!({"file_value": "\"pre $t(a, {\\\"x\\\": \\\"$t(k)\\\"}) post\""}));
     let mut cov = serde_json::Map::new();
-    cov.insert("rule".into(), json!(format!("(1) every string of <= {} tokens over {:?} through ParsedValue::new (+reduce when no foreign key is left); (2) every such string of <= {} tokens as a value in a real file through parse_locales (project also holds a, b=$t(a), count, p_one/p_other so references can resolve); (3) every range count of <= {} tokens over 13 spec tokens for i8,u8,f32,u64 and every JSON number class as count and as literal foreign-key count; (4) all small JSON values of depth <= {} in value position; (5) 13 targets x 13 argument texts x 4 positions of $t; (6) 20 whole-file contents and 7 missing/garbled project pieces; (7) nesting / length 1..2000 of 12 constructs and foreign-key chains, each in a subprocess on an 8 MiB stack; oracle: Ok or Err with non-empty message, no panic, no crash, every case within 20 s (deep: 60 s)", tier.pick(5, 6), TOKENS, tier.pick(3, 4), tier.pick(3, 4), tier.pick(2, 3))));
+    cov.insert("rule".into(), json!(format!("(1) every string of <= {} tokens over {:?} through ParsedValue::new (+reduce when no foreign key is left); (2) every such string of <= {} tokens as a value in a real file through parse_locales (project also holds a, b=$t(a), count, p_one/p_other so references can resolve); (2b) the foreign-key forms of (5) and the short token strings again in 9 positions (plural `_one` / `_other` / a middle form, ordinal `_other`, range branch and fallback, nested subkey, a non-default locale, an argument of a foreign key); (3) every range count of <= {} tokens over 13 spec tokens for i8,u8,f32,u64 and every JSON number class as count and as literal foreign-key count; (4) all small JSON values of depth <= {} in value position; (5) 13 targets x 13 argument texts x 4 positions of $t; (6) 20 whole-file contents and 7 missing/garbled project pieces; (7) nesting / length 1..2000 of 12 constructs and foreign-key chains, each in a subprocess on an 8 MiB stack; oracle: Ok or Err with non-empty message, no panic, no crash, every case within 20 s (deep: 60 s)", tier.pick(5, 6), TOKENS, tier.pick(3, 4), tier.pick(3, 4), tier.pick(2, 3))));
     cov.insert("exhaustive".into(), json!(true));
     cov.insert("outcome_classes".into(), json!(*classes.lock().unwrap()));
     cov.insert("front_end".into(), json!(build_format().name()));
